@@ -54,6 +54,9 @@ def run(ctx):
         lines.append("%dc\tcli\t-\t%s\t" % (k, mainp))
         lines.append("%dl\tlib\t-\t%s\t%s" % (k, mainp, root))
         lines.append("%dg\tlibgen\t-\t%s\t%s" % (k, mainp, root))
+        if len(fs["files"]) == 1:
+            # a build script may pass no include directory at all when the file includes nothing
+            lines.append("%dh\tlibgen\t-\t%s\t" % (k, mainp))
     cf = os.path.join(work, "cases.txt")
     open(cf, "w").write("\n".join(lines) + "\n")
     rc, out, err = vlib.run([ctx["harness"], "front", cf], timeout=1800)
@@ -90,6 +93,7 @@ def run(ctx):
     accepted_total = 0
     for k, (fs, info) in enumerate(muts):
         hc, hl, hg = hres.get("%dc" % k), hres.get("%dl" % k), hres.get("%dg" % k)
+        hnoinc = hres.get("%dh" % k)
         if not hc:
             continue
         rule_hist[info["rule"]] = rule_hist.get(info["rule"], 0) + 1
@@ -110,7 +114,8 @@ def run(ctx):
             res["corr_broken"].append({"kind": "correspondence", "detail": "idlc exit status %s disagrees with the replayed command-line pipeline on mutant %d (%s)" % (b[0], k, info["rule"]), "case": payload})
         if hg and hl and hg["result"].startswith("ok") and hl["result"] != "ok":
             res["corr_broken"].append({"kind": "correspondence", "detail": "idlc::Language::generate disagrees with the replayed library pipeline on mutant %d (%s)" % (k, info["rule"]), "case": payload})
-        for entry, acc in (("cli", b is not None and b[0] == 0), ("libgen", bool(hg) and hg["result"].startswith("ok"))):
+        for entry, acc in (("cli", b is not None and b[0] == 0), ("libgen", bool(hg) and hg["result"].startswith("ok")),
+                           ("libgen-no-include-dirs", bool(hnoinc) and hnoinc["result"].startswith("ok"))):
             if not acc:
                 continue
             accepted_total += 1
